@@ -97,6 +97,28 @@ CHECKS.update({
   text="Every catalogued operation (2/8 multi-block geometries each) and a program slice under: global default config, explicit equal Spec, other work_dir, store object, compressor None / explicit codec, reserved_mem, threads executor, larger allowed_mem: identical acceptance and values.",
   note="Real filesystem work_dirs under a per-case scratch directory; random/empty excluded (no defined values)."),
 })
+CHECKS.update({
+ "C03": dict(
+  category="exploration", design_ref="DESIGN.md 4/C03", engine="cexec",
+  technique="exhaustive enumeration of (operation x large geometry x dtype x compressor x fused/unfused) with a per-task tracemalloc monitor on the controlled executor",
+  text="28 (quick) / 51 (thorough) operations and fusable programs x {square, skinny, uneven last chunk} geometries at 0.3-1 MB chunks x optimize on/off (thorough: dtypes, compressor None): for every task of every op of the executed plan, peak traced allocation <= projected_mem with reserved_mem = 256 kB. Near-bound cases are measured twice and must agree.",
+  note="Weakest fit to the family: a monitor over an enumerated space, at MB scale only; tracemalloc does not see native codec scratch memory."),
+ "C04": dict(
+  category="exploration", design_ref="DESIGN.md 4/C04", engine="smallscope",
+  technique="exhaustive sweep of every integer allowed_mem across all admission boundaries x reserved_mem x optimizer settings, with store-trace checked runs at each boundary",
+  text="For 33 (quick) / 150 (thorough) programs: every integer allowed_mem in [0, 2*P_max] x reserved_mem x {unoptimized, default, fuse-all, legacy}: the plan's admission decision equals an independent evaluation of projected_mem > allowed_mem; at p-1, p, p+1 of every op's projected memory the computation is run: refused => ValueError, executor never entered, no set/delete anywhere; admitted => values equal NumPy. Unoptimized fits => default-optimized fits; each fused op reports >= the projected memory of every op it replaced.",
+  note="Tiny arrays (48-byte chunks) so that every integer budget can be swept."),
+ "C10": dict(
+  category="model_checking", design_ref="DESIGN.md 4/C10, 3.5", engine="histbfs",
+  technique="explicit-state breadth-first search over API call histories replayed on fresh real objects, deduplicated by a canonical state, with a NumPy shadow and input/target checksums as invariants on every transition",
+  text="From a pool {in-memory x, Zarr z, lazy y=x+1}: every event of an alphabet of ~50 (derive neg/sum/slice/rechunk/sub, compute with optimize/resume variants, compute of the whole pool, store/to_zarr of any array into new / same-chunked / differently chunked targets eager or lazy, default-executor change) from every distinct state to depth 2 (quick) / 3 (thorough), then store-containing histories extended by observing events one level further; every compute must return the value fixed at build time, inputs and earlier targets stay intact, declared chunks never change.",
+  note="Pool bounded to 5 one-dimensional arrays; states are canonicalised on property-relevant fields only."),
+ "C20": dict(
+  category="model_checking", design_ref="DESIGN.md 4/C20", engine="histbfs",
+  technique="exhaustive enumeration of two-interpreter scenarios (producer in a fresh interpreter, receiver with k pre-created names) x uses x optimize, judged against NumPy",
+  text="4 producer programs x receivers (same process; fresh interpreter having created k in {0,1,3} / {0..4,6} arrays and ops) x uses (alone, local-d, d-local, d with a second copy, d1-d2 from two producers, d with its original) x optimize: computed values equal NumPy.",
+  note="One interpreter per scenario side; both sides use an equal Spec."),
+})
 
 NOT_YET = {
 }
